@@ -26,12 +26,21 @@ class Ctx:
         v = self.st.env.get(name)
         if not isinstance(v, (Cell, IntV)): raise Undecided('invariant names scalar local %r which is not a scalar here' % name)
         return v.t
+    def has_local(self, name): return name in self.st.env
+    def scalar_any(self, name):
+        v = self.st.env.get(name)
+        if isinstance(v, (Cell, IntV)): return v.t
+        raise Undecided('invariant names local %r which is not a scalar here' % name)
     def has(self, name): return self.present.get(name, name in self._names)
     def entry_of(self, base): return self.st.initial[base]
     def retarr(self):
         r = getattr(self, 'ret', None)
         if not isinstance(r, View): raise Undecided('function does not return an array here')
         return self.st.whole(r)
+    def retdata(self, attr='data'):
+        r = getattr(self, 'ret', None)
+        if not isinstance(r, ObjV) or not isinstance(r.attrs.get(attr), View): raise Undecided('function does not return an object with a .%s array here' % attr)
+        return self.st.whole(r.attrs[attr])
     def outarr(self, name='out'): return self.cur(name) if self.has(name) else self.retarr()
     def unchanged(self, *names):
         """the listed array parameters (those present) still hold their entry contents"""
@@ -132,7 +141,7 @@ def setup(contract, cfgname, D, registry, repo):
     st.env.update(base_env(alg))
     # parameters, in the order of the real signature
     sig = [a.arg for a in fn.args.args]
-    declared = set(contract.arrays) | set(contract.tuples) | set(contract.scalars) | {'cls', 'self'}
+    declared = set(contract.arrays) | set(contract.tuples) | set(contract.scalars) | set(getattr(contract, 'objs', ())) | {'cls', 'self'}
     flat = set(a.split('.')[0] for a in contract.arrays)
     for p in sig:
         if p not in declared and p not in flat: raise Undecided('parameter %r of %s is not described by the contract' % (p, contract.qual))
@@ -143,6 +152,10 @@ def setup(contract, cfgname, D, registry, repo):
         pre[a] = st.heap[names[a]][0]
     for a in contract.arrays:
         if '.' not in a: st.env[a] = View(names[a], z3.IntVal(0), 1, Dt)
+    for o in getattr(contract, 'objs', ()):                 # object parameters (UTPM instances): attribute arrays named '<obj>.<attr>'
+        attrs = {a.split('.', 1)[1]: View(names[a], z3.IntVal(0), 1, Dt) for a in contract.arrays if a.startswith(o + '.')}
+        st.env[o] = ObjV('UTPM', attrs)
+    st.env.setdefault('UTPM', E.TypeV('UTPM')); st.env.setdefault('operator', ModV('operator'))
     for t, k in contract.tuples.items():
         if cfg.get(t, 'given') is None: st.env[t] = None
         else: st.env[t] = tuple(View(names['%s.%d' % (t, i)], z3.IntVal(0), 1, Dt) for i in range(k))
